@@ -41,31 +41,37 @@ Proof. vm_compute. reflexivity. Qed.
 Lemma w_web_esc_wf : url_wf w_web_esc.
 Proof. right. split; [reflexivity | discriminate]. Qed.
 
-(* ---- agent identity of another datacenter: issued (there is no datacenter test for agents) ---- *)
+(* ---- agent identity of another datacenter: refused like every other kind (commit 88c1fa0) ---- *)
 Definition w_agent_dc2 : url := Url "spiffe" w_td "/agent/client/dc/dc2/id/n1" "" true.
 
-Lemma w_agent_dc2_issued :
-  sign_request w_env w_az (w_csr w_agent_dc2) empty_store =
-  Ok (Cert [w_agent_dc2] [] [] false 1, incr_serial empty_store) /\
-  parse_cert_uri w_agent_dc2 = Ok (IdAgent w_td "default" "dc2" "n1").
+Lemma w_agent_dc2_refused :
+  parse_cert_uri w_agent_dc2 = Ok (IdAgent w_td "default" "dc2" "n1") /\
+  sign_request w_env w_az (w_csr w_agent_dc2) empty_store = Err EDatacenter.
 Proof. vm_compute. split; reflexivity. Qed.
 
-(* ---- agent identity with a foreign host in a non-canonical spelling: the host is NOT replaced ---- *)
+(* ---- agent identity with a foreign host in a non-canonical spelling: the URI is compared as an
+        identity and re-printed in the trust domain (commit b4828e2) ---- *)
 Definition w_agent_foreign : url :=
   Url "spiffe" "dummy.consul" "/ap/default/agent/client/dc/dc1/id/n1" "" true.
 
-Lemma w_agent_foreign_issued :
-  sign_request w_env w_az (w_csr w_agent_foreign) empty_store =
-  Ok (Cert [w_agent_foreign] [] [] false 1, incr_serial empty_store) /\
-  lower (u_host w_agent_foreign) <> trust_domain w_env.
-Proof. vm_compute. split; [reflexivity | discriminate]. Qed.
+Definition w_agent_esc : url :=
+  Url "spiffe" "other-cluster.consul" "/agent/client/dc/dc1/id/n1" "/agent/client/dc/dc1/id/n%31" false.
 
-(* the canonical spelling with the same foreign host is rewritten into the trust domain *)
+Definition w_agent_td : url := Url "spiffe" w_td "/agent/client/dc/dc1/id/n1" "" true.
+
+Lemma w_agent_foreign_coerced :
+  sign_request w_env w_az (w_csr w_agent_foreign) empty_store =
+    Ok (Cert [w_agent_td] [] [] false 1, incr_serial empty_store) /\
+  sign_request w_env w_az (w_csr w_agent_esc) empty_store =
+    Ok (Cert [w_agent_td] [] [] false 1, incr_serial empty_store).
+Proof. vm_compute. split; reflexivity. Qed.
+
+(* the canonical spelling with a dummy host, as auto-encrypt sends it *)
 Definition w_agent_dummy : url := Url "spiffe" "dummy.consul" "/agent/client/dc/dc1/id/n1" "" true.
 
 Lemma w_agent_dummy_issued :
   sign_request w_env w_az (w_csr w_agent_dummy) empty_store =
-  Ok (Cert [Url "spiffe" w_td "/agent/client/dc/dc1/id/n1" "" true] [] [] false 1, incr_serial empty_store).
+  Ok (Cert [w_agent_td] [] [] false 1, incr_serial empty_store).
 Proof. vm_compute. reflexivity. Qed.
 
 (* ---- an encoded "/" in a name plus a byte net/url does not accept in a RawPath: the certificate's
@@ -92,46 +98,21 @@ Definition w_hist : list (N * op) :=
     (8, OpIncrementSerial);
     (9, OpSnapshotRestore) ].
 
-Lemma w_hist_wf : Forall (fun io => op_wf (snd io)) w_hist.
-Proof.
-  unfold w_hist. repeat constructor; cbn; try exact I; repeat constructor; cbn; intuition discriminate.
-Qed.
-
 Lemma w_hist_result :
   run_ops empty_store w_hist =
   Store [Root "r1" false 4 6; Root "r2" true 6 6] 6 (Some (Config "consul" "c1" 3 4 8)) [] 0 (Some 1).
 Proof. vm_compute. reflexivity. Qed.
 
-Lemma reach_run_ops ops : forall s, Reach s -> Forall (fun io => op_wf (snd io)) ops -> Reach (run_ops s ops).
+Lemma reach_run_ops ops : forall s, Reach s -> Reach (run_ops s ops).
 Proof.
-  induction ops as [|[idx o] ops IH]; intros s Hs Hf; cbn [run_ops]; [exact Hs|].
-  inversion Hf as [|? ? Ho Hf']; subst. apply IH; [|exact Hf']. apply ReachStep; assumption.
+  induction ops as [|[idx o] ops IH]; intros s Hs; cbn [run_ops]; [exact Hs|].
+  apply IH. apply ReachStep. exact Hs.
 Qed.
 
 Lemma w_hist_reach : Reach (run_ops empty_store w_hist).
-Proof. apply reach_run_ops; [constructor | exact w_hist_wf]. Qed.
+Proof. apply reach_run_ops. constructor. Qed.
 
 (* ------------------------------------------------------------------ the refuted clauses, as statements *)
-
-Lemma refuted_datacenter :
-  exists e az c s crt s' u id,
-    sign_request e az c s = Ok (crt, s') /\ csr_uris c = [u] /\ parse_cert_uri u = Ok id /\
-    id_dc id <> e_dc e.
-Proof.
-  exists w_env, w_az, (w_csr w_agent_dc2), empty_store, (Cert [w_agent_dc2] [] [] false 1),
-         (incr_serial empty_store), w_agent_dc2, (IdAgent w_td "default" "dc2" "n1").
-  destruct w_agent_dc2_issued as [H1 H2]. repeat split; try assumption. discriminate.
-Qed.
-
-Lemma refuted_trust_domain :
-  exists e az c s crt s' u',
-    sign_request e az c s = Ok (crt, s') /\ c_uris crt = [u'] /\
-    lower (u_host u') <> trust_domain e.
-Proof.
-  exists w_env, w_az, (w_csr w_agent_foreign), empty_store, (Cert [w_agent_foreign] [] [] false 1),
-         (incr_serial empty_store), w_agent_foreign.
-  destruct w_agent_foreign_issued as [H1 H2]. repeat split; assumption.
-Qed.
 
 Lemma refuted_readable :
   exists e az c s crt s' u id,
@@ -145,10 +126,17 @@ Proof.
 Qed.
 
 Lemma agent_example :
-  agent_exception w_env w_agent_dummy (IdAgent "dummy.consul" "default" "dc1" "n1") = false /\
   sign_request w_env w_az (w_csr w_agent_dummy) empty_store =
-    Ok (Cert [Url "spiffe" w_td "/agent/client/dc/dc1/id/n1" "" true] [] [] false 1, incr_serial empty_store).
-Proof. split; [vm_compute; reflexivity | exact w_agent_dummy_issued]. Qed.
+    Ok (Cert [w_agent_td] [] [] false 1, incr_serial empty_store) /\
+  sign_request w_env w_az (w_csr w_agent_foreign) empty_store =
+    Ok (Cert [w_agent_td] [] [] false 1, incr_serial empty_store) /\
+  sign_request w_env w_az (w_csr w_agent_esc) empty_store =
+    Ok (Cert [w_agent_td] [] [] false 1, incr_serial empty_store) /\
+  sign_request w_env w_az (w_csr w_agent_dc2) empty_store = Err EDatacenter.
+Proof.
+  destruct w_agent_foreign_coerced as [H1 H2]. destruct w_agent_dc2_refused as [_ H3].
+  split; [exact w_agent_dummy_issued|]. split; [exact H1|]. split; [exact H2 | exact H3].
+Qed.
 
 Lemma wf_id_example :
   wf_id (IdService w_td "default" "default" "dc1" "web") /\ wf_id (IdAgent w_td "default" "dc1" "n1") /\
